@@ -125,7 +125,7 @@ META.update({
              'Accept-Encoding mentions, on a writer without Content-Encoding, with encoding enabled (Dispatch: route over container). '
              'The full statement is refuted in Coq for ServeHTTP (C07_refuted_servehttp_route_off: known finding K-C07-1, replayed '
              'on the real code). PARTIAL: the codec contract is assumed; bodies are decoded with the real compress packages in the '
-             'differential run. Handle / HandleWithFilter (plain handlers reached through ServeHTTP) are in the model and the domain. The decoded body must equal, byte for byte, what the scripts of the configuration wrote (c07_body_is_exactly_what_was_written); nested containers (HandleWithFilter of another container), statuses 204/304 and plain handlers are in the domain.',
+             'differential run. Handle / HandleWithFilter (plain handlers reached through ServeHTTP) are in the model and the domain. Theorem Props.C07_label: when scripts leave the Content-Encoding header alone, a response with a compressor installed carries exactly that coding\'s name once, and one without carries what the writer had on arrival (the container adds none) - both entry points, both routers, every outcome. The decoded body must equal, byte for byte, what the scripts of the configuration wrote (c07_body_is_exactly_what_was_written); nested containers (HandleWithFilter of another container), statuses 204/304 and plain handlers are in the domain.',
         design_ref='DESIGN.md section 6, C07', note=NOTE_DISP, technique=TECH),
     'C10': dict(
         text='Theorems Props.C10_no_escape, C10_once, C10_propagates, C10_ledger (Coq, no axioms): with recovery on no panic escapes '
